@@ -348,6 +348,12 @@ func constructMatchStyleRegex(s *Segment) (*regexp.Regexp, []string, error) {
 				return nil, nil, errors.Errorf("segment has non-regex literal in position %d", e.Pos.Offset)
 			}
 
+			// The expression must be valid on its own, e.g. "a)(b" only compiles once it
+			// is put in the parentheses below.
+			if _, err := syntax.Parse(*p.Value.Regex, syntax.Perl); err != nil {
+				return nil, nil, errors.Wrapf(err, "compile regexp of %q in position %d", p.Ident, e.Pos.Offset)
+			}
+
 			binds = append(binds, p.Ident)
 			buf.WriteString("(")
 			buf.WriteString(nonCapturing(*p.Value.Regex))
